@@ -203,7 +203,7 @@ def worker(sh):
 
 
 def run(ctx):
-    cfgs = ['prod', 'san', 'p32'] if ctx.quick else ['prod', 'san', 'p64', 'p32', 'p32-san']
+    cfgs = ['prod', 'san', 'p32', 'p64-O0'] if ctx.quick else ['prod', 'san', 'p64', 'p32', 'p32-san', 'p64-O0', 'gcc-p64']
     exes = session.build_exes({c: (c, 'wkd_drv.cpp', []) for c in cfgs})
     session.run_shards(ctx, worker, 16, exes, {'cfgs': cfgs})
     ctx.rule = ('events: (a) adjust_precomputed along a chain of lists vs precompute(to) at every step (G1 equality), all ordered pairs of lists over l=3 with values {1, r-1, r+2} '
